@@ -99,9 +99,26 @@ def run(rep: Report, prog: Program, tier: str) -> None:
         if isinstance(node, ast.Call) and unparse(node.func) in ("self._data_receiver._handle_data", "self._handle_rtp_data", "self._handle_rtcp_data"):
             deliveries.append((node, set(st.guards)))
 
-    EventsDomain(prog, lambda n, f: [], ob).run(recv)
+    # _recv_next and the helpers of the class it hands the datagram to (each analysed under the guards of its call site)
+    work = [(recv, EvState())]
+    seen_fns = set()
+    while work:
+        fn_, init = work.pop()
+        if fn_.qualname in seen_fns:
+            continue
+        seen_fns.add(fn_.qualname)
+        calls = []
+
+        def ob_calls(node, st: EvState, f, calls=calls):
+            ob(node, st, f)
+            if isinstance(node, ast.Call) and isinstance(node.func, ast.Attribute) and unparse(node.func.value) == "self":
+                tgt = prog.find_method(dcls, node.func.attr)
+                if tgt is not None and tgt.name not in ("_handle_rtp_data", "_handle_rtcp_data") and any(unparse(a) == "data" for a in node.args):
+                    calls.append((tgt, st))
+        EventsDomain(prog, lambda n, f: [], ob_calls).run(fn_, init)
+        work.extend(calls)
     if len(deliveries) < 3:
-        raise AnalysisError(f"only {len(deliveries)} delivery sites found in _recv_next")
+        raise AnalysisError(f"only {len(deliveries)} delivery sites found in _recv_next and its helpers")
     rx_writers = sorted({fi.qualname for fi in prog.iter_functions(["rtcdtlstransport"]) for n in walk_no_nested(fi.node)
                          if isinstance(n, ast.Attribute) and isinstance(n.ctx, ast.Store) and n.attr == "_rx_srtp"})
     setup_callers = sorted({fi.qualname for fi in prog.iter_functions() for n in walk_no_nested(fi.node)
@@ -311,6 +328,11 @@ def run(rep: Report, prog: Program, tier: str) -> None:
     cur: Optional[ast.If] = chain
     while cur is not None:
         txt = " ".join(unparse(b) for b in cur.body)
+        # a branch may delegate to a helper of the class: classify by what the helper does
+        for c_ in [x for b in cur.body for x in ast.walk(b) if isinstance(x, ast.Call) and isinstance(x.func, ast.Attribute) and unparse(x.func.value) == "self"]:
+            h_ = prog.find_method(dcls, c_.func.attr)
+            if h_ is not None:
+                txt += " " + unparse(h_.node)
         kind = "dtls" if "bio_write" in txt else ("srtp" if "unprotect" in txt else "other")
         branches.append((cur.test, kind))
         cur = cur.orelse[0] if len(cur.orelse) == 1 and isinstance(cur.orelse[0], ast.If) else None
